@@ -154,7 +154,9 @@ def run(run, tier, load):
     run.assumptions = ['float inputs lie in the documented domain -1.0 <= s < 1.0 (finite)']
     cfgs = ['std-debug', 'std-release'] + (['nostd'] if tier == 'thorough' else [])
     for cfg in cfgs:
-        facts = load(cfg)
+        facts = load(cfg, optional=(cfg == 'nostd'))
+        if facts is None:
+            continue
         n = 0
         for src in F.INT_FORMATS:
             for flt in F.FLOAT_FORMATS:
